@@ -276,6 +276,28 @@ func init() {
 			warm = otherLangTags
 		case "japanese-variants-first":
 			warm = []string{"ja-US", "ja-DE", "ja-u-ca-japanese", "ja-Latn", "en-GB", "en-JP"}
+		case "fresh":
+			// a light child: only the fallback of every function for a few tags (run many times: a table or matcher
+			// whose shape depends on per-process map iteration order shows in some processes only)
+			for _, lang := range []string{"zh", "ko", "ru", "ar", "hi", "th", "el", "he", "mul", "fr", "und", "zero"} {
+				for i := range lib.TitleFns {
+					en, _ := callTitle(w, &lib.TitleFns[i], "en")
+					if s, ok := callTitle(w, &lib.TitleFns[i], lang); ok && s != en {
+						w.Violate(Violation{Monitor: "C18", Check: "a language that is neither English nor Japanese produces exactly the English title (fresh process)", Case: namesCase(lib.TitleFns[i].Name, 0, false, lang), Observed: s, Expected: en})
+					}
+				}
+				for i := range lib.ValueFns {
+					for v := 0; v <= 3; v++ {
+						en, _ := callValue(w, &lib.ValueFns[i], v, "en")
+						if s, ok := callValue(w, &lib.ValueFns[i], v, lang); ok && s != en {
+							w.Violate(Violation{Monitor: "C18", Check: "a language that is neither English nor Japanese produces exactly the English name (fresh process)", Case: namesCase(lib.ValueFns[i].Name, v, true, lang), Observed: s, Expected: en})
+						}
+					}
+				}
+			}
+			w.Merge()
+			fmt.Println("evaluations", r.evals.Load())
+			return 0
 		case "reverse":
 			warm = append(append([]string{}, otherLangTags...), regionalTags...)
 			for i, j := 0, len(warm)-1; i < j; i, j = i+1, j-1 {
@@ -322,10 +344,27 @@ func runC18(r *Run) int {
 		}(g)
 	}
 	wg.Wait()
-	// (2) fresh child processes whose first lookups are something else than plain English / Japanese
-	modes := []string{"regional-first", "other-first", "japanese-variants-first", "reverse"}
+	// (2) fresh child processes whose first lookups are something else than plain English / Japanese, one of them
+	// started under a Japanese POSIX locale (the statement has no exception for the process environment)
+	modes := []string{"regional-first", "other-first", "japanese-variants-first", "reverse", "reverse@ja_JP-locale", "other-first@ja_JP-locale"}
+	nFresh := r.Pick(40, 200)
+	for i := 0; i < nFresh; i++ {
+		modes = append(modes, "fresh")
+	}
 	for _, m := range modes {
-		rest, err := r.RunChildChecks("first lookups: "+m, "c18child", m)
+		mode, loc, _ := strings.Cut(m, "@")
+		if loc != "" {
+			os.Setenv("LC_ALL", "ja_JP.UTF-8")
+			os.Setenv("LC_MESSAGES", "ja_JP.UTF-8")
+			os.Setenv("LANG", "ja_JP.UTF-8")
+			os.Setenv("LANGUAGE", "ja")
+		}
+		rest, err := r.RunChildChecks("first lookups: "+m, "c18child", mode)
+		if loc != "" {
+			for _, e := range []string{"LC_ALL", "LC_MESSAGES", "LANG", "LANGUAGE"} {
+				os.Unsetenv(e)
+			}
+		}
 		if err != nil {
 			r.Inconclusive("child process %s failed: %v %v", m, err, rest)
 			continue
@@ -337,7 +376,7 @@ func runC18(r *Run) int {
 			}
 		}
 	}
-	r.Extra("child_processes_with_other_first_lookups", modes)
+	r.Extra("child_processes", map[string]interface{}{"with_other_first_lookups": modes[:6], "light_fresh_processes": nFresh})
 	missing, parsed, err := unmonitoredNames()
 	r.Extra("registry", map[string]interface{}{"title_functions": len(lib.TitleFns), "value_functions": len(lib.ValueFns), "exported_functions_found_by_go/parser": parsed, "unmonitored_exported_functions": missing, "parse_error": fmt.Sprint(err)})
 	if len(missing) > 0 {
@@ -346,7 +385,7 @@ func runC18(r *Run) int {
 	r.Extra("japanese_unknown_name", jaUnknown)
 	r.Extra("other_language_tags", otherLangTags)
 	r.Extra("regional_variant_tags_exercised_not_judged", regionalTags)
-	return r.Finish("exhaustive: the 52 names functions (26 titles, 3 column headers, 23 value-name functions) x every enumeration integer -700..700, around +-2^8/2^15/2^16/2^24/2^31/2^32, MinInt/MaxInt x {English, Japanese} + fallback of every function/value over 45 tags whose language is neither English nor Japanese (incl. und, und-JP, und-Jpan, the zero Tag, enm, jam, jv); Modified value names vs base value names for every code; the whole set is run by 8 goroutines at once in this process and once in each of 4 fresh child processes whose first lookups are regional variants / other languages / Japanese variants / reversed order; distinct non-trivial = distinct (function, defined value or title, language) triples",
+	return r.Finish("exhaustive: the 52 names functions (26 titles, 3 column headers, 23 value-name functions) x every enumeration integer -700..700, around +-2^8/2^15/2^16/2^24/2^31/2^32, MinInt/MaxInt x {English, Japanese} + fallback of every function/value over 45 tags whose language is neither English nor Japanese (incl. und, und-JP, und-Jpan, the zero Tag, enm, jam, jv); Modified value names vs base value names for every code; the whole set is run by 8 goroutines at once in this process and once in each of 6 fresh child processes whose first lookups are regional variants / other languages / Japanese variants / reversed order (two of them under a ja_JP POSIX locale), and the English fallback in 40 (quick) / 200 (thorough) further fresh processes; distinct non-trivial = distinct (function, defined value or title, language) triples",
 		true, int64(r.SetSize("value_names")+r.SetSize("titles")), 5000, 200, TrustedBase)
 }
 
